@@ -221,6 +221,17 @@ func provedLE(v ssa.Value, bound string, fs []Fact, depth int, seen map[ssa.Valu
 	}
 	seen[v] = true
 	defer delete(seen, v)
+	// min(a, b, ...) <= bound if any argument is
+	if call, isCall := v.(*ssa.Call); isCall {
+		if bi, isB := call.Call.Value.(*ssa.Builtin); isB && bi.Name() == "min" {
+			for _, a := range call.Call.Args {
+				if provedLE(a, bound, fs, depth+1, seen) {
+					return true
+				}
+			}
+			return false
+		}
+	}
 	// a dominating fact v <= w with w <= bound
 	for _, f := range fs {
 		if w := upperOperand(f, v); w != nil {
